@@ -62,6 +62,38 @@ def first_hint_path(d, path=()):
     return None
 
 
+def type_key_paths(node, table, d, tn, path=(), out=None):
+    """Paths of the mappings that carry a '-type' key AT A UNION POSITION (elsewhere the key is not a hint)."""
+    out = [] if out is None else out
+    k = node["k"]
+    if k == "ref":
+        return type_key_paths(table[node["name"]], table, d, tn, path, out)
+    if k == "array" and isinstance(d, (list, tuple)):
+        for i, x in enumerate(d):
+            type_key_paths(node["items"], table, x, tn, path + (i,), out)
+    elif k == "map" and isinstance(d, dict):
+        for key, v in d.items():
+            type_key_paths(node["values"], table, v, tn, path + (key,), out)
+    elif k == "record" and isinstance(d, dict):
+        for f in node["fields"]:
+            if f["name"] in d:
+                type_key_paths(f["type"], table, d[f["name"]], tn, path + (f["name"],), out)
+    elif k == "union":
+        if isinstance(d, tuple) and tn and len(d) == 2:
+            for b in node["branches"]:
+                if M.branch_name(b, table) == d[0]:
+                    type_key_paths(b, table, d[1], tn, path + (1,), out)
+                    break
+        else:
+            if isinstance(d, dict) and "-type" in d:
+                out.append(path)
+            for b in node["branches"]:
+                if S.conforms(b, table, d, tn):
+                    type_key_paths(b, table, d, tn, path, out)
+                    break
+    return out
+
+
 def replace_at(d, path, fn):
     if not path:
         return fn(d)
@@ -92,7 +124,7 @@ class C09(Check):
         "closure is asserted for data whose hints are on named branches only",
         "shape under return_record_name* is not asserted for unions holding by-name references to enum or fixed types (documented approximation: such a reference is counted as a record)",
     ]
-    required_labels = ["multi-conforming", "hint:tuple", "hint:-type", "hint:wrong", "float-deferral", "record-tie", "closure", "shape:named", "shape:named-override-single", "shape:record-by-name", "shape:record-override-single", "logical-family", "logical-generated", "decimal-to-later-branch", "no-tuple-notation"]
+    required_labels = ["multi-conforming", "hint:tuple", "hint:-type", "hint:wrong", "hint:wrong:-type", "float-deferral", "record-tie", "closure", "shape:named", "shape:named-override-single", "shape:record-by-name", "shape:record-override-single", "logical-family", "logical-generated", "decimal-to-later-branch", "no-tuple-notation"]
     quick = (4000, 1)
     thorough = (10000, 16)
 
@@ -120,13 +152,19 @@ class C09(Check):
             ir, table, js = gen.build_schema(d, feat)
             gen.check_truth(ir, table, js)
             tn = not d.p(0.12)
-            f2 = feat if tn else gen.Features(**dict(feat.__dict__, hints=0.0))
+            # with the notation disabled a tuple is an ordinary sequence: arrays are then also given as tuples
+            f2 = feat if tn else gen.Features(**dict(feat.__dict__, hints=0.0, exotic_seqs=True, tuples_in_unions=True))
             dg = gen.DataGen(d, f2, table)
             datum = dg.gen(ir, 6)
             wrong = False
             if tn and d.p(0.15):
                 p = first_hint_path(datum)
-                if p is not None:
+                pts = type_key_paths(ir, table, datum, tn)
+                pt = pts[0] if pts else None
+                if pt is not None and (p is None or d.p(0.5)):
+                    datum = replace_at(datum, pt, lambda m: dict(m, **{"-type": d.choice(["Nope", "record", "ns.Missing", ""])}))
+                    wrong = "-type"
+                elif p is not None:
                     datum = replace_at(datum, p, lambda h: (d.choice(["nope", "Int", "record", "ns.Missing", ""]), h[1]))
                     wrong = True
             return {"schema": js, "datum": datum, "parsed": d.p(0.4), "opts": d.i(len(OPTS)), "tuple_notation": tn, "wrong_hint": wrong}
@@ -200,9 +238,17 @@ class C09(Check):
         yield dict(base, schema=[{"type": "record", "name": "Opt", "fields": [{"name": "a", "type": ["null", "int"]}]}, "int"], datum={"unrelated": 1})
         yield dict(base, schema=["float", "double"], datum=("float", 1.5))
         yield dict(base, schema=["null"] + two, datum={"id": 7, "-type": "Deleted"})
+        yield dict(base, schema=["null"] + two, datum={"id": 7, "-type": "Nope"}, wrong_hint="-type")
         for js, data in LOGICAL_UNIONS:
             for x in data:
                 yield dict(base, schema=js, datum=x)
+        # disable_tuple_notation: a 2-tuple that looks like a hint is array data
+        sa = ["string", {"type": "array", "items": "string"}]
+        yield dict(base, schema=sa, datum=("string", "x"), tuple_notation=False)
+        yield dict(base, schema=sa, datum=("string", "x"))
+        yield dict(base, schema=["null", {"type": "array", "items": ["int", "string"]}], datum=("int", 5), tuple_notation=False)
+        yield dict(base, schema={"type": "record", "name": "TN", "fields": [{"name": "u", "type": ["null", "int", {"type": "array", "items": ["null", "string"]}]}]}, datum={"u": ("null", None)}, tuple_notation=False)
+        yield dict(base, schema={"type": "map", "values": [{"type": "array", "items": "string"}, {"type": "enum", "name": "En", "symbols": ["a"]}]}, datum={"k": ("En", "a")}, tuple_notation=False)
         e2 = [{"type": "record", "name": "R", "fields": []}, {"type": "enum", "name": "E1", "symbols": ["A", "B"]}, {"type": "enum", "name": "E2", "symbols": ["B", "A"]},
               {"type": "fixed", "name": "F1", "size": 2}, {"type": "fixed", "name": "F2", "size": 2}]
         for opts in range(len(OPTS)):
@@ -359,6 +405,8 @@ class C09(Check):
 
         if case.get("wrong_hint"):
             labels.add("hint:wrong")
+            if case["wrong_hint"] == "-type":
+                labels.add("hint:wrong:-type")
             if not S.conforms(node, table, datum, tn):
                 o = outcome(write, schema)
                 if o[0] == "ok":
@@ -426,7 +474,7 @@ class C09(Check):
         return labels
 
     def nontrivial(self, labels):
-        return bool(labels & {"multi-conforming", "hint:tuple", "hint:-type", "hint:wrong", "float-deferral"})
+        return bool(labels & {"multi-conforming", "hint:tuple", "hint:-type", "hint:wrong", "hint:wrong:-type", "float-deferral"})
 
 
 CHECK = C09()
